@@ -20,7 +20,8 @@ MAPS = [None, "", "p.Quote => blockquote > p:fresh\nb => b\nu => u\ncomment-refe
 def supported_gen(rng, i):
     """packages inside the property's domain: optional constructs independently absent, tolerated references dangling"""
     return gen_xml.XGen(rng, anomalies=0.3 if i % 2 else 0.0, optional_absent=0.3 if i % 3 else 0.0,
-                        dangling=0.3 if i % 4 < 2 else 0.0, alt_no_fallback=0.5 if i % 5 == 0 else 0.0)
+                        dangling=0.3 if i % 4 < 2 else 0.0, alt_no_fallback=0.5 if i % 5 == 0 else 0.0,
+                        stray_in_table=0.4 if i % 3 == 1 else 0.0)
 
 
 def break_package(rng, pkg):
